@@ -27,6 +27,7 @@ type violation struct {
 	Message   string          `json:"message"`
 	Scenario  string          `json:"scenario"`
 	Replay    json.RawMessage `json:"replay,omitempty"`
+	Spec      string          `json:"spec,omitempty"` // the (possibly hidden) spec whose harness produced it
 }
 
 type result struct {
@@ -86,7 +87,7 @@ func runWorker(sp *spec, bin string, j workerJob) (*result, error) {
 		scen[i] = strconv.Itoa(s)
 	}
 	env := append(goEnv(),
-		"VERIF_PROP="+sp.ID, "VERIF_TIER="+j.Tier, "VERIF_MODE="+j.Mode, "VERIF_SCEN="+strings.Join(scen, ","),
+		"VERIF_PROP="+sp.propID(), "VERIF_TIER="+j.Tier, "VERIF_MODE="+j.Mode, "VERIF_SCEN="+strings.Join(scen, ","),
 		"VERIF_OUT="+j.Out, "VERIF_SCRATCH="+j.Scratch, "VERIF_REPLAY="+j.Replay, "VERIF_PARAMS="+j.Params,
 		"GOMAXPROCS="+strconv.Itoa(sp.gomaxprocs()),
 	)
@@ -243,35 +244,40 @@ func loadKnown() []knownFinding {
 	return v.Findings
 }
 
-func runCheck(sp *spec, tier, params string, jobs int, budget time.Duration, seed int, writeEvidence bool, only string) int {
+// collected is what running the scenarios of one spec yields.
+type collected struct {
+	results    []*result
+	engineErrs []string
+	raceInfo   map[string]any
+	nOrder     int
+	buildS     float64
+	fatal      int // != 0: engine error before any scenario ran
+}
+
+// collect builds the harness of sp, lists its scenarios and runs them.
+func collect(sp *spec, tier, params string, jobs int, deadline time.Time, only string, scratch string) (out collected) {
 	start := time.Now()
-	scratch, err := os.MkdirTemp("", "vcheck-"+sp.ID+"-")
-	if err != nil {
-		fatal(2, "%v", err)
-	}
-	defer os.RemoveAll(scratch)
 	bin, err := buildHarness(sp, scratch, false)
 	if err != nil {
 		fmt.Fprintf(os.Stderr, "vcheck: ENGINE ERROR building harness for %s: %v\n", sp.ID, err)
-		return 2
+		out.fatal = 2
+		return
 	}
-	buildS := time.Since(start).Seconds()
-	if budget == 0 {
-		budget = sp.budget(tier)
-	}
-	deadline := start.Add(budget)
+	out.buildS = time.Since(start).Seconds()
 
 	// list scenarios
 	listOut := filepath.Join(scratch, "list.json")
 	if _, err := runWorker(sp, bin, workerJob{Mode: "list", Tier: tier, Out: listOut, Params: params, Scratch: scratch}); err != nil {
 		fmt.Fprintf(os.Stderr, "vcheck: ENGINE ERROR listing scenarios: %v\n", err)
-		return 2
+		out.fatal = 2
+		return
 	}
 	var scen []scenario
 	lb, _ := os.ReadFile(listOut)
 	if err := json.Unmarshal(lb, &scen); err != nil {
 		fmt.Fprintf(os.Stderr, "vcheck: ENGINE ERROR bad scenario list: %v\n", err)
-		return 2
+		out.fatal = 2
+		return
 	}
 	// chunks: heavy scenarios alone, light ones batched
 	type chunk struct {
@@ -358,7 +364,7 @@ func runCheck(sp *spec, tier, params string, jobs int, budget time.Duration, see
 					}
 					results = append(results, r)
 					for _, v := range r.Violations {
-						if !isKnownSig(sp.ID, v.Signature) {
+						if !isKnownSig(sp.propID(), v.Signature) {
 							sawViolation = true
 						}
 					}
@@ -420,6 +426,47 @@ func runCheck(sp *spec, tier, params string, jobs int, budget time.Duration, see
 		}
 	}
 
+	for _, r := range results {
+		for i := range r.Violations {
+			r.Violations[i].Spec = sp.ID
+		}
+	}
+	out.results, out.engineErrs, out.raceInfo, out.nOrder = results, engineErrs, raceInfo, len(order)
+	return
+}
+
+func runCheck(sp *spec, tier, params string, jobs int, budget time.Duration, seed int, writeEvidence bool, only string) int {
+	start := time.Now()
+	scratch, err := os.MkdirTemp("", "vcheck-"+sp.ID+"-")
+	if err != nil {
+		fatal(2, "%v", err)
+	}
+	defer os.RemoveAll(scratch)
+	if budget == 0 {
+		budget = sp.budget(tier)
+	}
+	deadline := start.Add(budget)
+	// the spec itself, then the specs whose scenarios belong to the same property but live in another package
+	var results []*result
+	var engineErrs []string
+	raceInfo := map[string]any{}
+	nOrder := 0
+	buildS := 0.0
+	for _, cs := range append([]*spec{sp}, sp.alsoSpecs()...) {
+		sub := filepath.Join(scratch, cs.ID+"-"+strings.ReplaceAll(cs.Pkg, "/", "_"))
+		os.MkdirAll(sub, 0o755)
+		c := collect(cs, tier, params, jobs, deadline, only, sub)
+		if c.fatal != 0 {
+			return c.fatal
+		}
+		results = append(results, c.results...)
+		engineErrs = append(engineErrs, c.engineErrs...)
+		for k, v := range c.raceInfo {
+			raceInfo[k] = v
+		}
+		nOrder += c.nOrder
+		buildS += c.buildS
+	}
 	// merge
 	merged := &result{Counters: map[string]int64{}, MaxBound: map[string]int{}}
 	outcomes := map[string]struct{}{}
@@ -505,7 +552,7 @@ func runCheck(sp *spec, tier, params string, jobs int, budget time.Duration, see
 		path := filepath.Join(verifDir, "replays", sp.ID+"-"+hex.EncodeToString(h[:6])+".json")
 		rb, _ := json.MarshalIndent(map[string]any{
 			"property": sp.ID, "tier": tier, "params": params, "signature": sig, "message": c.v.Message,
-			"scenario": c.v.Scenario, "replay": c.v.Replay, "occurrences": c.count,
+			"scenario": c.v.Scenario, "replay": c.v.Replay, "occurrences": c.count, "spec": c.v.Spec,
 		}, "", " ")
 		os.WriteFile(path, rb, 0o644)
 		fmt.Printf("VIOLATION property=%s replay=%s\n", sp.ID, path)
@@ -521,9 +568,9 @@ func runCheck(sp *spec, tier, params string, jobs int, budget time.Duration, see
 	}
 
 	wall := time.Since(start).Seconds()
-	exhaustive := len(merged.Caps) == 0 && scenDone >= len(order)
+	exhaustive := len(merged.Caps) == 0 && scenDone >= nOrder
 	if writeEvidence {
-		ev := buildEvidence(sp, tier, seed, merged, len(outcomes), exhaustive, wall, buildS, len(order), scenDone, nViol, raceInfo, budget)
+		ev := buildEvidence(sp, tier, seed, merged, len(outcomes), exhaustive, wall, buildS, nOrder, scenDone, nViol, raceInfo, budget)
 		eb, _ := json.MarshalIndent(ev, "", " ")
 		os.MkdirAll(filepath.Join(verifDir, "evidence"), 0o755)
 		if err := os.WriteFile(filepath.Join(verifDir, "evidence", sp.ID+".json"), eb, 0o644); err != nil {
@@ -531,7 +578,7 @@ func runCheck(sp *spec, tier, params string, jobs int, budget time.Duration, see
 		}
 	}
 	fmt.Printf("%s tier=%s scenarios=%d/%d executions=%d states=%d transitions=%d steps=%d distinct_outcomes=%d violations=%d known=%d exhaustive=%v caps=%d wall=%.1fs (build %.1fs)\n",
-		sp.ID, tier, scenDone, len(order), merged.Executions, merged.States, merged.Transitions, merged.Steps, len(outcomes), nViol, len(seenK), exhaustive, len(merged.Caps), wall, buildS)
+		sp.ID, tier, scenDone, nOrder, merged.Executions, merged.States, merged.Transitions, merged.Steps, len(outcomes), nViol, len(seenK), exhaustive, len(merged.Caps), wall, buildS)
 	if nViol > 0 {
 		return 1
 	}
